@@ -973,14 +973,21 @@ class Collocator:
             pd.Timestamp(secondary.time.values.max().item(0)).tz_localize(None) + max_interval
         )
 
+        # np.datetime64(pd.Timestamp) would cut off the nanoseconds:
+        common_start, common_end = [
+            limit.to_datetime64() if isinstance(limit, pd.Timestamp)
+            else np.datetime64(limit)
+            for limit in (common_start, common_end)
+        ]
+
         primary_period = primary.time.where(
-            (primary.time.values >= np.datetime64(common_start))
-            & (primary.time.values <= np.datetime64(common_end))
+            (primary.time.values >= common_start)
+            & (primary.time.values <= common_end)
         ).dropna(primary.time.dims[0])
 
         secondary_period = secondary.time.where(
-            (secondary.time.values >= np.datetime64(common_start))
-            & (secondary.time.values <= np.datetime64(common_end))
+            (secondary.time.values >= common_start)
+            & (secondary.time.values <= common_end)
         ).dropna(secondary.time.dims[0])
 
         return primary_period, secondary_period
